@@ -213,6 +213,20 @@ Theorem C08_mutex_refuted_creation_gaps :
 Proof. exact mutex_refuted_creation_gaps. Qed.
 Print Assumptions C08_mutex_refuted_creation_gaps.
 
+(** ... and realistically on slow storage: ONE truncate -> write gap of up to 2 s (longer than
+    the eight retries, 250 ms apart) lets a waiter read the live holder's file empty eight times
+    in a row within that gap.  Repaired code, heartbeat on time, nobody killed: two holders.
+    Reproduced on the real code by the scenario [slow-truncate-gap-longer-than-retries]
+    (2.3 s gap injected with strace): known finding.  The emptyCount fix covers gaps shorter
+    than the retries only. *)
+Theorem C08_mutex_refuted_long_write_gap :
+  exists s i1 i2, run cfg_slow init long_gap_run = Some s /\
+    (forall p, ~ In (LKill p) long_gap_run) /\
+    cs s 0%nat = CHolding i1 /\ cs s 1%nat = CHolding i2 /\ i1 <> i2 /\
+    now s < 5 * sec + eps cfg_slow.
+Proof. exact mutex_refuted_long_write_gap. Qed.
+Print Assumptions C08_mutex_refuted_long_write_gap.
+
 (** Distinct names never block each other — for names with different Safe images: their
     lock files are different files, and steps on one lock file neither change nor enable
     or disable steps on another. *)
